@@ -1,5 +1,5 @@
 (* C19 — printable forms (statements; PrintProofs.v, PrintPP.v). *)
-From BS Require Import Prims IntCodec Print PrintProofs PrintPP.
+From BS Require Import Prims IntCodec Print PrintProofs PrintPP PPDigits.
 Open Scope Z_scope.
 Theorem C19_str_roundtrip : forall b : bits, zlen b <= MAX_CHARS * 4 -> parse_parts (str_parts b) = b /\ p_truncated (str_parts b) = false.
 Proof. exact str_roundtrip. Qed.
@@ -18,8 +18,62 @@ Proof. exact max_bits_positive. Qed.
 Example C19_pp_nonvacuous : let a := mkpp 480 1 (Some 4) 0 60 1 false in
   args_ok a /\ max_bits_per_line a = 24 /\ line_chars a 24 = 33 /\ unit_bits a = 24.
 Proof. unfold args_ok, bpc_ok. cbn. repeat split; try lia; auto. Qed.
+(* pp() with ONE bin / oct / hex format whose group length is given (PPDigits.pp models what is printed as data: lines of groups of digit values):
+   the call is accepted exactly for a non-negative group length that is a multiple of the bits per digit (ungrouped: when the data is a whole number of
+   digits), else ValueError; the digits of all groups of all lines, decoded in order, are exactly the data without the reported trailing bits, and
+   data = digits ++ trailing bits; no group is split (each shows exactly `group` bits); every line but the last shows exactly max_bits_per_line bits, the
+   last between 1 and that, there is no empty line; every line fits in `width` unless it holds a single unit. Under lsb0 the shape is that of the msb0 output
+   of the reversed data and the trailing bits are the first stored bits. *)
+Theorem C19_pp_accepted_calls : forall f group width seplen off d,
+  (accepted f group d -> exists out, pp false f group width seplen off d = Ok out) /\
+  (~ accepted f group d -> pp false f group width seplen off d = Err ValueError).
+Proof. exact pp_accepts. Qed.
+Theorem C19_pp_prints_exactly_the_digits_of_the_data : forall f group width seplen off d out,
+  pp false f group width seplen off d = Ok out ->
+  let t := trailing_len group d in
+  decode f (out_lines out) = firstn (Z.to_nat (zlen d - t)) d /\
+  out_trailing out = skipn (Z.to_nat (zlen d - t)) d /\
+  d = decode f (out_lines out) ++ out_trailing out /\
+  zlen (out_trailing out) = t /\ 0 <= t <= zlen d /\ (0 < group -> t < group) /\ (group = 0 -> t = 0).
+Proof. exact pp_digits_are_the_data. Qed.
+Theorem C19_pp_groups_are_whole : forall f group width seplen off d out,
+  pp false f group width seplen off d = Ok out -> forall l, In l (out_lines out) ->
+  (0 < group -> Forall (fun ds => group_bits f ds = group /\ zlen ds = group / bpc f) l /\ line_bits f l = zlen l * group) /\
+  (group = 0 -> exists ds, l = [ds]) /\
+  Forall (Forall (fun x => 0 <= x < 2 ^ bpc f)) l.
+Proof. exact pp_groups_whole. Qed.
+Theorem C19_pp_line_lengths : forall f group width seplen off d out,
+  pp false f group width seplen off d = Ok out ->
+  let m := pp_m f group width seplen off d in
+  0 < m /\ full_then_last m (map (line_bits f) (out_lines out)) /\
+  (forall i, (i < length (out_lines out))%nat ->
+     0 < line_bits f (nth i (out_lines out) []) <= m /\
+     ((S i < length (out_lines out))%nat -> line_bits f (nth i (out_lines out) []) = m)) /\
+  (out_lines out = [] <-> zlen d < Z.max group 1).
+Proof. exact pp_line_lengths. Qed.
+Theorem C19_pp_lines_fit : forall f group width seplen off d out,
+  pp false f group width seplen off d = Ok out -> forall l, In l (out_lines out) ->
+  let a := pp_a f group width seplen off d in
+  let m := pp_m f group width seplen off d in
+  line_width a l = line_chars a (line_bits f l) /\ (unit_bits a < m -> line_width a l <= width) /\
+  unit_bits a <= m /\ (unit_bits a = m -> line_bits f l = unit_bits a).
+Proof. exact pp_lines_fit. Qed.
+Theorem C19_pp_under_lsb0 : forall f group width seplen off d, accepted f group d ->
+  exists out out', pp true f group width seplen off d = Ok out /\ pp false f group width seplen off (rev d) = Ok out' /\
+  d = out_trailing out ++ rev (decode_lsb0 f (out_lines out)) /\
+  zlen (out_trailing out) = trailing_len group d /\
+  map (map zlen) (out_lines out) = map (map zlen) (out_lines out') /\
+  pp_m f group width seplen off (rev d) = pp_m f group width seplen off d /\
+  pp_a f group width seplen off (rev d) = pp_a f group width seplen off d.
+Proof. exact pp_lsb0. Qed.
 Print Assumptions C19_str_roundtrip.
 Print Assumptions C19_str_truncation.
 Print Assumptions C19_pp_line_within_width.
 Print Assumptions C19_pp_never_splits_a_group.
 Print Assumptions C19_pp_makes_progress.
+Print Assumptions C19_pp_accepted_calls.
+Print Assumptions C19_pp_prints_exactly_the_digits_of_the_data.
+Print Assumptions C19_pp_groups_are_whole.
+Print Assumptions C19_pp_line_lengths.
+Print Assumptions C19_pp_lines_fit.
+Print Assumptions C19_pp_under_lsb0.
